@@ -23,6 +23,13 @@ C04Opts == {o \in [lg : DateUnits, sm : DateUnits, inc : {1, 2, 3, 7}, mode : Mo
 \* C05: PlainDateTime.until / since with rounding options
 C05Opts == {o \in [lg : {"year", "month", "week", "day", "hour", "second"}, sm : {"month", "week", "day", "hour", "minute", "second", "nanosecond"}, inc : {1, 2, 15}, mode : {"trunc", "ceil", "halfExpand"}] :
               /\ UnitLe(o.sm, o.lg) /\ (o.sm = "hour" => o.inc \in {1, 2}) /\ (o.sm = "nanosecond" => o.inc \in {1, 2})}
+\* C07: the neighbouring multiple in NudgeToDayOrTime - every hour increment, every mode, totals that are exact ties of whole days plus hours
+\* (8 h: three multiples a day, so the parity of a multiple within the day differs from its parity in the total)
+C07Rels == {Date(2020, 1, 1), Date(2020, 1, 31)}
+C07Durs == {Dm(0, 0, 0, 0, 0, 0, 0, 0), Dm(0, 0, 0, 1, 4, 0, 0, 0), Dm(0, 0, 0, 0, 36, 0, 0, 0), Dm(0, 0, 0, 1, 12, 0, 0, 0), Dm(0, 0, 0, 3, 4, 0, 0, 0), Dm(0, 0, 0, 0, 1, 30, 0, 0),
+            NegDur(Dm(0, 0, 0, 1, 4, 0, 0, 0)), NegDur(Dm(0, 0, 0, 0, 36, 0, 0, 0)), Dm(0, 0, 0, 2, 0, 0, 0, 1), Dm(0, 0, 0, 1, 3, 59, 59, 999999999)}
+C07Opts == {o \in [lg : {"day", "hour"}, sm : {"hour", "minute"}, inc : {1, 2, 3, 4, 6, 8, 12, 15, 30}, mode : Modes] :
+              (o.sm = "hour" => o.inc \in {1, 2, 3, 4, 6, 8, 12}) /\ (o.sm = "minute" => o.inc \in {1, 15, 30})}
 AllTotalUnits == {"year", "month", "week", "day", "hour", "second", "nanosecond"}
 NoOpts == {}
 NoUnits == {}
